@@ -27,15 +27,16 @@ type nyctCase struct {
 }
 
 type nyctRecord struct {
-	Kind     string          `json:"kind"`
-	Case     string          `json:"case"`
-	Msg      json.RawMessage `json:"msg"`
-	Opts     nyctOpts        `json:"opts"`
-	Err      string          `json:"err"`
-	Res      rt.Res          `json:"res"`
-	PlainErr string          `json:"plainErr"`
-	Plain    rt.Res          `json:"plain"`
-	Perms    abs.Seq[rt.Run] `json:"perms"` // every other entity order, with the extension (messages of 2-3 entities)
+	Kind       string          `json:"kind"`
+	Case       string          `json:"case"`
+	Msg        json.RawMessage `json:"msg"`
+	Opts       nyctOpts        `json:"opts"`
+	Err        string          `json:"err"`
+	Res        rt.Res          `json:"res"`
+	PlainErr   string          `json:"plainErr"`
+	Plain      rt.Res          `json:"plain"`
+	TsVariants abs.Seq[rt.Run] `json:"tsVariants"` // the same message with TripUpdate.timestamp set (long ago / far ahead) in every trip update
+	Perms      abs.Seq[rt.Run] `json:"perms"`      // every other entity order, with the extension (messages of 2-3 entities)
 }
 
 type originObs struct {
@@ -135,11 +136,23 @@ func nycttripsDriver(args []string) (*Summary, error) {
 					s.Crashes = append(s.Crashes, map[string]string{"case": id, "what": "ParseRealtime " + e})
 				}
 			}
-			rec := nyctRecord{"msg", id, c.Msg, *c.Opts, with.Err, with.Res, without.Err, without.Res, nil}
+			rec := nyctRecord{"msg", id, c.Msg, *c.Opts, with.Err, with.Res, without.Err, without.Res, nil, nil}
 			if len(msg.Ents) >= 2 && len(msg.Ents) <= 3 && len(msg.Fuse) == 0 {
 				for _, o := range rt.Permutations(len(msg.Ents))[1:] {
 					e2 := nycttrips.Extension(nycttrips.ExtensionOpts{FilterStaleUnassignedTrips: c.Opts.FilterStale, PreserveMTrainPlatformsInBushwick: c.Opts.PreserveM})
 					rec.Perms = append(rec.Perms, rt.ParseOnce(msg, o, "nil", e2))
+				}
+			}
+			hasTU := false
+			for _, e := range msg.Ents {
+				hasTU = hasTU || e.K == "tu"
+			}
+			if hasTU {
+				for _, ts := range []uint64{1, 253402300799} {
+					rt.TripUpdateTimestamp = ts
+					e2 := nycttrips.Extension(nycttrips.ExtensionOpts{FilterStaleUnassignedTrips: c.Opts.FilterStale, PreserveMTrainPlatformsInBushwick: c.Opts.PreserveM})
+					rec.TsVariants = append(rec.TsVariants, rt.ParseOnce(msg, order, "nil", e2))
+					rt.TripUpdateTimestamp = 0
 				}
 			}
 			w.Write(rec)
